@@ -22,6 +22,9 @@ pub enum Case {
     Slice { lens: Vec<usize>, tuple: bool, limit: Option<usize> },
     /// Array / tuple of `Vec<u8>` with these (capacity, fill).
     MutSlice { bufs: Vec<(usize, usize)>, tuple: bool, limit: Option<usize> },
+    /// A pool `ReadBuf` of `size` bytes holding `fill` bytes (filled by a simulated kernel read):
+    /// the `Buf` and `BufMut` laws on it, `n` more bytes marked initialised, optionally limited.
+    PoolBuf { size: u32, fill: usize, limit: Option<usize> },
     /// A `&'static [u8]` / `&'static str` of `len` bytes (2^32-1 and more) over a lazily mapped,
     /// never touched region, optionally limited: the laws that do not read the bytes.
     Huge { str_slice: bool, len: usize, limit: Option<usize> },
@@ -37,6 +40,97 @@ fn huge_region() -> &'static [u8] {
         p as usize
     });
     unsafe { std::slice::from_raw_parts(addr as *const u8, LEN) }
+}
+
+fn run_pool_buf(size: u32, fill: usize, limit: Option<usize>, out: &mut Vec<Violation>) {
+    use std::task::Context;
+    use std::time::Duration;
+    use crate::ops::{self, Kind, Seen};
+    use crate::simk::{self, Out};
+    crate::waker::reset_clock();
+    simk::reset(simk::SetupPlan::default());
+    let mut ring = a10::Ring::config().with_submission_queue_size(4).build().expect("ring");
+    let sq = ring.sq();
+    let raw = simk::with(|k| k.new_regular_pub());
+    let fd: &'static a10::AsyncFd = Box::leak(Box::new(unsafe { a10::AsyncFd::from_raw_fd(raw, sq.clone()) }));
+    let pool = a10::io::ReadBufPool::new(sq.clone(), 2, size).expect("pool");
+    let env = ops::Env { sq: &sq, fd, pool: Some(&pool), nth: 0 };
+    let mut op = ops::make(Kind::ReadPool, &env);
+    let w = crate::waker::HWaker::new(1);
+    let mut cx = Context::from_waker(&w.waker);
+    assert_eq!(op.poll(&mut cx), Seen::Pending);
+    let _ = ring.poll(Some(Duration::ZERO));
+    let s = simk::with(|k| *k.inflight().last().unwrap());
+    simk::with(|k| k.complete(s, Out::Res(fill as i32)));
+    let _ = ring.poll(Some(Duration::ZERO));
+    assert!(matches!(op.poll(&mut cx), Seen::Ready(_)));
+    let mut buf = op.bufs.borrow_mut().pop().unwrap();
+    drop(op);
+    let slot = simk::with(|k| {
+        let pb = &k.rings[0].pbufs[0];
+        (0..pb.entries as usize).map(|i| unsafe { std::ptr::read_volatile((pb.addr + i * 16) as *const crate::abi::BufRingEntry) }).map(|e| (e.addr as usize, e.len as usize)).find(|(a, l)| (buf.as_ptr() as usize) >= *a && (buf.as_ptr() as usize) < *a + *l)
+    });
+    let what = "ReadBuf";
+    let Some((base, cap)) = slot else {
+        out.push(v("pool-buf/outside-slot", format!("a {size}-byte pool buffer filled with {fill} bytes points at {:#x}, inside no buffer of its pool", buf.as_ptr() as usize)));
+        std::mem::forget(buf);
+        std::mem::forget(pool);
+        std::mem::forget(ring);
+        simk::shutdown();
+        return;
+    };
+    let held: Vec<u8> = buf[..].to_vec();
+    // Read side.
+    let (rp, rl) = unsafe { Buf::parts(&buf) };
+    if rp as usize != base || rl as usize != fill || Buf::len(&buf) != fill || Buf::is_empty(&buf) != (fill == 0) {
+        out.push(v(&format!("pool-buf/read-side/{what}"), format!("{size}-byte buffer at {base:#x} holding {fill} bytes: parts() = ({:#x}, {rl}), len() = {}, is_empty() = {}", rp as usize, Buf::len(&buf), Buf::is_empty(&buf))));
+    }
+    // Write side, directly and through a limit.
+    let spare = cap - fill;
+    let check_mut = |b: &mut dyn FnMut() -> ((*mut u8, u32), u32, bool), bound: usize, out: &mut Vec<Violation>| {
+        let ((wp, wl), sc, has) = b();
+        let want = spare.min(bound);
+        if wl as usize > want || (wl > 0 && wp as usize != base + fill) || sc as usize != wl as usize || has != (want > 0) || (want > 0 && wl == 0) {
+            out.push(v(&format!("pool-buf/write-side/{what}"), format!("{size}-byte buffer at {base:#x} holding {fill} bytes (limit {limit:?}): parts_mut() = ({:#x}, {wl}), spare_capacity() = {sc}, has_spare_capacity() = {has}; the spare part is {want} bytes at {:#x}", wp as usize, base + fill)));
+        }
+    };
+    match limit {
+        None => {
+            check_mut(&mut || (unsafe { BufMut::parts_mut(&mut buf) }, BufMut::spare_capacity(&buf), BufMut::has_spare_capacity(&buf)), usize::MAX, out);
+            // Mark every possible n initialised after writing a pattern into the spare part.
+            let n = spare;
+            let (wp, wl) = unsafe { BufMut::parts_mut(&mut buf) };
+            if wl as usize >= n && wp as usize == base + fill {
+                for j in 0..n {
+                    unsafe { wp.add(j).write(0xC0 + j as u8) };
+                }
+                unsafe { BufMut::set_init(&mut buf, n) };
+                let mut want = held.clone();
+                want.extend((0..n).map(|j| 0xC0 + j as u8));
+                if buf[..] != want[..] {
+                    out.push(v(&format!("pool-buf/set-init/{what}"), format!("{size}-byte buffer holding {held:02x?}: after writing {n} bytes through parts_mut and set_init({n}) it holds {:02x?}, expected {want:02x?}", &buf[..])));
+                }
+            }
+        }
+        Some(l) => {
+            let mut lb = BufMut::limit(buf, l);
+            check_mut(&mut || (unsafe { BufMut::parts_mut(&mut lb) }, BufMut::spare_capacity(&lb), BufMut::has_spare_capacity(&lb)), l, out);
+            buf = lb.into_inner();
+        }
+    }
+    if out.is_empty() {
+        drop(buf);
+        drop(pool);
+        drop(unsafe { Box::from_raw(std::ptr::from_ref(fd).cast_mut()) });
+        let _ = ring.poll(Some(Duration::ZERO));
+        drop(ring);
+        drop(sq);
+    } else {
+        std::mem::forget(buf);
+        std::mem::forget(pool);
+        std::mem::forget(ring);
+    }
+    simk::shutdown();
 }
 
 fn run_huge(str_slice: bool, len: usize, limit: Option<usize>, out: &mut Vec<Violation>) {
@@ -541,6 +635,7 @@ pub fn run(case: &Case) -> Vec<Violation> {
         Case::Slice { lens, tuple, limit } => run_slice(lens, *tuple, *limit, &mut out),
         Case::MutSlice { bufs, tuple, limit } => run_mut_slice(bufs, *tuple, *limit, &mut out),
         Case::Huge { str_slice, len, limit } => run_huge(*str_slice, *len, *limit, &mut out),
+        Case::PoolBuf { size, fill, limit } => run_pool_buf(*size, *fill, *limit, &mut out),
     }
     out
 }
@@ -562,6 +657,14 @@ fn limits(c: usize, total: usize) -> Vec<Option<usize>> {
 
 pub fn cases(quick: bool) -> Vec<Case> {
     let mut v = Vec::new();
+    // Pool buffers: every fill level of small buffers, unlimited and limited.
+    for size in [1u32, 3, 8] {
+        for fill in 0..=size as usize {
+            for limit in [None, Some(0usize), Some(1), Some(size as usize), Some(1 << 32)] {
+                v.push(Case::PoolBuf { size, fill, limit });
+            }
+        }
+    }
     // Buffers of 4 GiB and more (lengths no longer fit the 32 bits io_uring uses).
     for str_slice in [false, true] {
         for len in [(1usize << 32) - 1, 1 << 32, (1 << 32) + 5, 5 << 30] {
